@@ -318,11 +318,21 @@ class GEN_DATACLASS:
 # ------------------------------------------------------------------------------------ JsonSchemaParser.parse_type (C15)
 
 P = "utype/specs/json_schema/parser.py"
-JSP_FIELDS = dict(default_type=Cls(name="default_type"), type_map=NONE, json_schema=NONE, name=NONE, description=NONE)
+JSP_FIELDS = dict(default_type=Cls(name="default_type"), type_map=NONE, json_schema=NONE, name=NONE, description=NONE,
+                  object_meta_cls=NONE, object_base_cls=NONE, object_options_cls=NONE, force_forward_ref=BOOL, refs=NONE)
 
 
 def _install_p(world):
     world.models["JsonSchemaParser"] = RecordModel(world, P, "JsonSchemaParser", JSP_FIELDS)
+    world.inline.add(("utype/utils/functional.py", "valid_attr"))
+
+    def iskeyword(ex, args, kwargs):
+        import keyword
+        c = args[0].const() if isinstance(args[0], VStr) else None
+        if c is None:
+            raise Unsupported("keyword.iskeyword on a symbolic string")
+        return VBool(keyword.iskeyword(c))
+    world.ext_table["keyword.iskeyword"] = VFunc("keyword.iskeyword", iskeyword)
 
 
 _C.INSTALLERS.append(_install_p)
@@ -370,3 +380,103 @@ class PARSE_TYPE:
         if isinstance(tm, VMap):
             # the table maps names to classes (truthy, not None)
             ex.assume(ex.forall(0, tm.n, lambda i: z3.And(z3.Select(tm.vals, i) != sym.NONE, sym.truthy_f(z3.Select(tm.vals, i)))))
+
+
+# ------------------------------------------------------------------------------------ parse_object (C15, bounded: one property)
+
+field_required_flag = z3.Function("parsed_field_required", V, B)     # ghost: the `required` the field was built with
+field_alias = z3.Function("parsed_field_alias", V, V)
+
+
+@contract(P, "JsonSchemaParser.get_attname", props=["C15"])
+class GET_ATTNAME:
+    self_model = "JsonSchemaParser"
+    cases = {"any": dict(name=STR, excludes=LIST)}
+    result = STR
+    returns = {"no_dunder": "result != '__annotations__' and result != '__options__' and result != '__doc__'"}
+    only_raises = []
+    trusted = ("re.sub / keyword.iskeyword: external; interface: returns a str that is not a dunder name (leading and trailing "
+               "underscores are stripped); identifier-ness and uniqueness are not decided here")
+
+
+@contract(P, "JsonSchemaParser.parse_field", props=["C15"])
+class PARSE_FIELD:
+    """interface (ghost record of the call): the field is built with exactly the `required` flag and alias it was given"""
+    cases = {"any": dict(self=Rec("JsonSchemaParser"), schema=OBJ, required=BOOL, dependencies=OBJ, alias=OBJ)}
+    result = Tup(OBJ_NN, OBJ_NN)
+    returns = {"required_recorded": "built_required(result[1]) == required", "alias_recorded": "built_alias(result[1]) is alias"}
+    only_raises = ["Exception"]
+    trusted = "ghost record of the call; Field(**kwargs) and the annotation keywords are not verified"
+
+
+@specfn("built_required")
+def _built_required(ex, fr, f):
+    return VBool(field_required_flag(ex.box(f)))
+
+
+@specfn("built_alias")
+def _built_alias(ex, fr, f):
+    return VObj(field_alias(ex.box(f)))
+
+
+class _MetaCls(Desc):
+    """self.object_meta_cls: calling it builds the data class; modelled as a record of the attrs it was given"""
+    name = "object_meta_cls"
+
+    def fresh(self, ex, pname):
+        def build(ex_, a, k):
+            ex_.world.ext.use(ex_, "object_meta_cls(name, bases, attrs): class creation; the attrs mapping is what the class is built from")
+            ex_.built_attrs = a[2]
+            return VObj(ex_.fresh("new_cls", V))
+        return VFunc("object_meta_cls", build)
+
+
+def _po_schema(key, required_has_key):
+    """{'type': 'object', 'properties': {key: {}}, 'required': [...]}"""
+    def mk(ex):
+        d = VDict()
+        d.items["type"] = (z3.BoolVal(True), VStr("object"))
+        props = VDict()
+        props.items[key] = (z3.BoolVal(True), VDict())
+        d.items["properties"] = (z3.BoolVal(True), props)
+        d.items["required"] = (z3.BoolVal(True), VTup([VStr(key)] if required_has_key else [VStr("other")], "list"))
+        return d
+    return Const(mk, name="object-schema{%s%s}" % (key, ",required" if required_has_key else ""))
+
+
+def _po_cases():
+    out = {}
+    for key in ("size", "content-type", "class", "items"):
+        for req in (True, False):
+            out["%s,%s" % (key, "required" if req else "optional")] = dict(
+                self=Rec("JsonSchemaParser", object_meta_cls=_MetaCls(), object_base_cls=OBJ, object_options_cls=OBJ_NN,
+                         force_forward_ref=FALSE, refs=NONE),
+                schema=_po_schema(key, req), name=NONE, description=NONE, constraints=NONE)
+    return out
+
+
+@specfn("built_field_required")
+def _built_field_required(ex, fr, key):
+    """the `required` flag of the one field the class was built with (whatever attribute name it got)"""
+    attrs = getattr(ex, "built_attrs", None)
+    if not isinstance(attrs, (VDict, VMap)):
+        raise Unsupported("no class was built on this path")
+    if isinstance(attrs, VDict):
+        vals = [v for kk, (p, v) in attrs.items.items() if not kk.startswith("__")]
+        if len(vals) != 1:
+            raise Unsupported("expected one field attribute, got %d" % len(vals))
+        return VBool(field_required_flag(ex.box(vals[0])))
+    # symbolic attrs mapping: the first entry is the field (annotations / options are added after it)
+    return VBool(field_required_flag(z3.Select(attrs.vals, 0)))
+
+
+@contract(P, "JsonSchemaParser.parse_object", props=["C15"])
+class PARSE_OBJECT:
+    """C15 (bounded: an object schema with ONE property): a property listed in `required` becomes a required
+    field and one that is not listed an optional field -- whatever its name, including names that are not
+    valid identifiers ('content-type'), keywords ('class') or dict attributes ('items') and are renamed."""
+    cases = _po_cases()
+    returns_by_case = {cn: {"required_iff_listed": "built_field_required('%s') == %s" % (cn.split(",")[0], cn.endswith(",required"))}
+                       for cn in _po_cases()}
+    only_raises = ["Exception"]
+    assumes = ["BOUNDED: one property, empty property schema, no $ref / dependentRequired / additionalProperties"]
